@@ -959,6 +959,10 @@ def index_position(i: T):
             tm.is_const(i.args[2]) and isinstance(i.args[2].args[1], int):
         off += i.args[2].args[1]
         i = i.args[1]
+    if i.op == "index":
+        # the counter of enumerate(...): position k of whatever is
+        # enumerated; how many there are is the other operands' business
+        return i.args[0], off, 0
     if i.op != "elem":
         return None
     src = index_source(i.args[0])
